@@ -25,7 +25,7 @@ WRAPPER_ITEMS = [
 
 
 def tr_wrapper(run):
-    emit_skeletons(run, "Wrapper", WRAPPER_ITEMS, inline_static=True)
+    emit_skeletons(run, "Wrapper", WRAPPER_ITEMS, inline_static=True, canon_cmp=True)
     # const-qualification of the stored pointers (C01: the library only reads through them)
     h = strip_comments(run.src("src/inputdatastorage.h"))
     const_ok = bool(re.search(r"const\s+char\s*\*\s*filename\s*;", h) and re.search(r"char\s*\*\s*const\s*\*\s*argv\s*;", h)
